@@ -26,6 +26,7 @@ type c12truth struct {
 	ends     [2]exact.P // overlap endpoints
 	crossAbs *big.Rat   // |d1 x d2| for proper crossings
 	huge     bool       // ordinates beyond 1e100: a reported crossing must still be finite
+	float    bool       // some ordinate is not an integer: the location bound allows for the rounding of the inputs' differences
 }
 
 func c12Exact(s1, s2 seg) c12truth {
@@ -152,7 +153,7 @@ func c12Robust(c *fw.Ctx, s1, s2 seg, a, b, cc, d geom.Coord, tr c12truth, locat
 		return false
 	}
 	c.Eval(1)
-	if !holdAndRecheck(c, "c12-robust", "LineIntersectsLine result", func() string { return fmt.Sprint(res.Type(), res.Intersection()) }) {
+	if !c12NoHold && !holdAndRecheck(c, "c12-robust", "LineIntersectsLine result", func() string { return fmt.Sprint(res.Type(), res.Intersection()) }) {
 		return false
 	}
 	if res.Type() != tr.typ {
@@ -193,7 +194,7 @@ func c12Robust(c *fw.Ctx, s1, s2 seg, a, b, cc, d geom.Coord, tr c12truth, locat
 				// demanded there; the classification above is exact at any magnitude.
 				return true
 			}
-			if !inEnvelope(p, s1) || !inEnvelope(p, s2) {
+			if !tr.float && (!inEnvelope(p, s1) || !inEnvelope(p, s2)) {
 				c.Fail("point-outside-envelope", "reported crossing point %s lies outside a segment's envelope", fw.Fs(p[:2]))
 				return false
 			}
@@ -204,6 +205,14 @@ func c12Robust(c *fw.Ctx, s1, s2 seg, a, b, cc, d geom.Coord, tr c12truth, locat
 			maxy := math.Max(math.Max(s1.a[1], s1.b[1]), math.Max(s2.a[1], s2.b[1]))
 			S := math.Max(maxx-minx, maxy-miny)
 			bound := 64 * math.Ldexp(1, -53) * S * S * S / exact.F64(tr.crossAbs)
+			if tr.float {
+				// ordinates that are not integers: moving them to the envelope centre
+				// already rounds each by up to an ulp of its magnitude M, which the
+				// crossing amplifies by S^2/|d1 x d2| like any input perturbation, and
+				// the reported point is itself rounded to a double of that magnitude
+				M := math.Max(math.Max(math.Abs(minx), math.Abs(maxx)), math.Max(math.Abs(miny), math.Abs(maxy)))
+				bound = 64*math.Ldexp(1, -53)*S*S*(S+M)/exact.F64(tr.crossAbs) + 2*math.Ldexp(M, -52)
+			}
 			dx := exact.Sub(exact.R(p[0]), tr.pt.X)
 			dy := exact.Sub(exact.R(p[1]), tr.pt.Y)
 			dist := math.Sqrt(exact.F64(exact.Add(exact.Mul(dx, dx), exact.Mul(dy, dy))))
@@ -233,6 +242,9 @@ func c12Robust(c *fw.Ctx, s1, s2 seg, a, b, cc, d geom.Coord, tr c12truth, locat
 	return true
 }
 
+var c12CoordBufs [4][3]float64
+var c12NoHold bool
+
 // c12CheckPair checks all 8 symmetric presentations.
 func c12CheckPair(c *fw.Ctx, s1, s2 seg, locate, nonRobust bool) {
 	if c.R.Chance(1, 64) {
@@ -244,6 +256,9 @@ func c12CheckPair(c *fw.Ctx, s1, s2 seg, locate, nonRobust bool) {
 		if math.Abs(v) > 1e100 {
 			tr.huge = true
 		}
+		if v != math.Trunc(v) || math.Abs(v) > 1<<52 {
+			tr.float = true
+		}
 	}
 	c.Count("class_" + tr.class)
 	mk := func(p [2]float64) geom.Coord {
@@ -253,6 +268,21 @@ func c12CheckPair(c *fw.Ctx, s1, s2 seg, locate, nonRobust bool) {
 		return geom.Coord{p[0], p[1]}
 	}
 	co := [4]geom.Coord{mk(s1.a), mk(s1.b), mk(s2.a), mk(s2.b)}
+	if c.R.Bool() {
+		// the caller keeps four coordinate buffers and refills them for every pair:
+		// same addresses, other segments
+		for i := range co {
+			b := c12CoordBufs[i][:len(co[i]):len(co[i])]
+			copy(b, co[i])
+			co[i] = b
+		}
+		c.Count("pairs_passed_in_refilled_coordinate_buffers")
+		// (an overlap is reported as the caller's own end points: results of such a
+		// pair are views of these buffers and are not held across pairs)
+		c12NoHold = true
+		delete(heldSlots, "c12-robust")
+		defer func() { c12NoHold = false; delete(heldSlots, "c12-robust") }()
+	}
 	// one pair in four writes some zero ordinates as -0 (the same number; the
 	// caller's bits must still be there after the calls)
 	if c.R.Chance(1, 4) {
@@ -513,7 +543,9 @@ func c12Float(c *fw.Ctx, idx int) {
 	}
 	c.Count("float_pairs")
 	c.Distinct(fmt.Sprintf("float/%v/%v", f1, f2))
-	c12CheckPair(c, f1, f2, false, false)
+	// the location bound is relative to the extent of the two segments, not to
+	// their distance from the origin: it applies to short segments far away as well
+	c12CheckPair(c, f1, f2, true, false)
 	if c.WantSample() {
 		c.Sample(c.Input())
 	}
